@@ -12,7 +12,7 @@ import os
 import struct
 
 FAMILIES = ["flip", "truncate", "offsets", "ueb", "sharehash", "blockhash", "cthash", "block",
-            "swapshare", "otherfile", "otherenc", "flapping", "forged", "sizefields", "flip", "block"]
+            "swapshare", "otherfile", "otherenc", "flapping", "forged", "sizefields", "flip", "block", "coordinated"]
 
 
 def run(ck):
@@ -55,7 +55,7 @@ def run(ck):
             u()
     ck.require_monitor("prefix-oracle", "completion-oracle")
     # behavioural reach (independent of internal names): damage was applied and reads both failed and survived
-    ck.require_reach("read-succeeded-despite-damage", "read-failed", "forged-mixed-set-read")
+    ck.require_reach("read-succeeded-despite-damage", "read-failed", "forged-mixed-set-read", "coordinated-forgery-read")
 
 
 class ScratchFailed(Exception):
@@ -167,6 +167,14 @@ def one_case(ck, rng, fam):
 
         if fam == "flapping":
             install_flapper(g, rng, detail, changed)
+        elif fam == "coordinated":
+            d = imm.forge_coordinated(g, si, k, n, size, p["segsize"], rng)
+            if d is None:
+                ck.observe("coordinated-forgery-not-applicable")
+            else:
+                detail.append(d)
+                changed[0] += 1
+                ck.hit("coordinated-forgery-read")
         elif forged is None:
             damage()
 
@@ -208,7 +216,7 @@ def one_case(ck, rng, fam):
                 ck.hit("err:" + res.type.__name__)
             else:
                 ck.observe("read-" + st)
-            if r + 1 < nreads and fam not in ("forged", "flapping") and rng.random() < .5:
+            if r + 1 < nreads and fam not in ("forged", "flapping", "coordinated") and rng.random() < .5:
                 damage()
         ck.case(fam, key=(fam, k, n, size, p["segsize"], changed[0], tuple(detail[:3])),
                 nontrivial=changed[0] > 0, sample=dict(desc, detail=detail[:4]))
